@@ -248,9 +248,16 @@ def ll_meaning(fn, env: trees.Env, param_names):
                 va, vb = val(ty, a), val(ty, b)
                 regs[dest] = env.fadd(va, vb) if op == "fadd" else env.fsub(va, vb) if op == "fsub" else env.fmul(va, vb)
                 continue
-            if op == "sitofp":
+            if op in ("sitofp", "uitofp"):
                 mm = re.match(r"(\S+)\s+(\S+)\s+to\s+(\S+)", rest)
-                regs[dest] = env.itof(val(mm.group(1), mm.group(2)))
+                v = val(mm.group(1), mm.group(2))
+                if op == "uitofp":
+                    v = ite(icmp("<", v, 0), iadd(v, 2**32), v)
+                regs[dest] = env.itof(v)
+                continue
+            if op == "sext":
+                mm = re.match(r"(\S+)\s+(\S+)\s+to\s+(\S+)", rest)
+                regs[dest] = val(mm.group(1), mm.group(2))
                 continue
             if op == "icmp":
                 pred, rest2 = rest.split(" ", 1)
